@@ -50,7 +50,7 @@ NP_FRESH = {
     'dot', 'matmul', 'nan_to_num', 'isposinf', 'isinf', 'iscomplexobj', 'isrealobj', 'ndindex', 'asfarray', 'errstate',
     'dtype', 'float64', 'complex128', 'complex64', 'int64', 'bool', 'bool_', 'issubdtype', 'result_type', 'isclose',
     'allclose', 'pi', 'inf', 'newaxis', 'nan', 'testing.assert_allclose', 'testing.assert_equal', 'square', 'tril',
-    'triu', 'var', 'std', 'median', 'linalg.det', 'linalg.pinv', 'einsum_path', 'count_nonzero', 'nonzero', 'roll',
+    'triu', 'var', 'std', 'median', 'linalg.LinAlgError', 'linalg.det', 'linalg.pinv', 'einsum_path', 'count_nonzero', 'nonzero', 'roll',
 }
 # functions that may return a view of (share memory with) an argument
 NP_VIEW = {'asarray', 'asanyarray', 'ascontiguousarray', 'asfortranarray', 'broadcast_to', 'broadcast_arrays', 'swapaxes',
@@ -62,7 +62,8 @@ NP_VIEW = {'asarray', 'asanyarray', 'ascontiguousarray', 'asfortranarray', 'broa
 NP_INPLACE = {'fill_diagonal', 'copyto', 'put', 'place', 'putmask', 'put_along_axis', 'random.shuffle',
               'ndarray.sort', 'ndarray.fill', 'add.at', 'subtract.at', 'multiply.at', 'maximum.at', 'minimum.at'}
 ND_VIEW_METHODS = {'transpose', 'reshape', 'swapaxes', 'squeeze', 'ravel', 'view', 'conj', 'conjugate', 'diagonal',
-                   'get', 'pop', 'items', 'values', 'keys', 'setdefault', '__getitem__', 'take', 'newbyteorder'}
+                   'get', 'pop', 'items', 'values', 'keys', 'setdefault', '__getitem__', 'take', 'newbyteorder', 'union',
+                   'intersection', 'difference'}
 ND_FRESH_METHODS = {'copy', 'astype', 'sum', 'mean', 'max', 'min', 'flatten', 'dot', 'any', 'all', 'argmax', 'argmin',
                     'tolist', 'cumsum', 'cumprod', 'round', 'clip', 'std', 'var', 'prod', 'nonzero', 'repeat', 'trace',
                     'item', 'tobytes', 'argsort', 'format', 'join', 'split', 'strip', 'startswith', 'endswith', 'isdigit',
@@ -74,11 +75,12 @@ ATTR_VIEW = {'real', 'imag', 'T', 'mT', 'flat', 'base', 'data'}
 # fully qualified third-party / stdlib callees: effect on arguments
 EXT_FRESH_PREFIX = ('scipy.special.', 'scipy.linalg.', 'scipy.optimize.', 'scipy.interpolate.', 'math.', 'operator.',
                     'warnings.', 'sklearn.', 'collections.', 'dataclasses.', 'typing.', 'sympy.', 'paderbox.',
-                    'cached_property.', 'pb_bss.distribution.complex_bingham_utils.', 'pb_bss.extraction.cythonized.')
+                    'cached_property.', 'pb_bss.distribution.complex_bingham_utils.', 'pb_bss.extraction.cythonized.',
+                    'inspect.', 'difflib.', 'collections.namedtuple')
 EXT_ALIAS = ('itertools.', 'functools.')      # results may contain references to the arguments, no mutation
 BUILTIN_FRESH = {'range', 'len', 'int', 'float', 'bool', 'str', 'isinstance', 'issubclass', 'print', 'hasattr', 'repr',
                  'type', 'abs', 'all', 'any', 'callable', 'id', 'hash', 'round', 'divmod', 'pow', 'ord', 'chr', 'format',
-                 'complex', 'xor', 'perm', 'ValueError', 'TypeError', 'NotImplementedError', 'AssertionError',
+                 'complex', 'xor', 'perm', 'dir', 'ValueError', 'TypeError', 'NotImplementedError', 'AssertionError',
                  'RuntimeError', 'IndexError', 'AttributeError', 'KeyError', 'DeprecationWarning', 'UserWarning'}
 BUILTIN_ALIAS = {'list', 'tuple', 'dict', 'set', 'frozenset', 'zip', 'enumerate', 'iter', 'next', 'reversed', 'sorted',
                  'getattr', 'map', 'filter', 'sum', 'max', 'min', 'slice', 'super', 'vars', 'object'}
@@ -108,11 +110,11 @@ class ClassInfo:
 
 
 class Module:
-    def __init__(self, repo, rel):
+    def __init__(self, repo, rel, text=None):
         self.rel = rel
         self.short = SHORT.get(rel, os.path.basename(rel)[:-3])
         self.dotted = rel[:-3].replace('/', '.')
-        self.tree = ast.parse(open(os.path.join(repo, rel)).read())
+        self.tree = ast.parse(open(os.path.join(repo, rel)).read() if text is None else text)
         self.funcs, self.classes, self.imports = {}, {}, {}
         pkg = self.dotted.rsplit('.', 1)[0]
         for n in self.tree.body:
@@ -133,6 +135,15 @@ class Module:
                 base = '.'.join(parts + ([n.module] if n.module else []))
             for a in n.names:
                 self.imports[a.asname or a.name] = ('obj', base, a.name)
+        elif isinstance(n, ast.Assign) and isinstance(n.value, ast.Call) and len(n.targets) == 1 and \
+                isinstance(n.targets[0], ast.Name):
+            root = n.value.func
+            while isinstance(root, ast.Attribute):
+                root = root.value
+            if isinstance(root, ast.Name) and root.id in self.imports:
+                imp = self.imports[root.id]
+                dotted = imp[1] if imp[0] == 'mod' else imp[1] + '.' + imp[2]
+                self.imports[n.targets[0].id] = ('obj', dotted, ast.unparse(n.value.func).split('.', 1)[-1])
         elif isinstance(n, (ast.Try, ast.If)):
             for sub in ast.iter_child_nodes(n):
                 if isinstance(sub, ast.stmt):
@@ -143,8 +154,9 @@ class Module:
 
 
 class World:
-    def __init__(self, repo, files):
+    def __init__(self, repo, files, sources=None):
         self.mods = [Module(repo, f) for f in files if os.path.exists(os.path.join(repo, f))]
+        self.mods += [Module(repo, rel, text) for rel, text in (sources or {}).items()]
         self.by_dotted = {m.dotted: m for m in self.mods}
         self.classes = collections.defaultdict(list)          # class name -> [ClassInfo]
         self.fn_nodes = {}                                     # qual -> (module, class or None, node)
@@ -242,3 +254,1029 @@ class World:
             if obj in self.classes:
                 return ('class', obj)
         return ('ext', base + '.' + obj)
+
+
+# ----------------------------------------------------------------------------- per-function translation
+def _deco_names(node):
+    return [ast.unparse(d).split('.')[-1].split('(')[0] for d in node.decorator_list]
+
+
+class FnCtx:
+    def __init__(self, world, qual):
+        self.world, self.qual = world, qual
+        self.mod, self.cls, self.node = world.fn_nodes[qual]
+        node = self.node
+        a = node.args
+        pos = a.posonlyargs + a.args
+        defaults = dict(zip([x.arg for x in pos][len(pos) - len(a.defaults):], a.defaults))
+        defaults.update({x.arg: d for x, d in zip(a.kwonlyargs, a.kw_defaults) if d is not None})
+        decos = _deco_names(node)
+        self.kind = ('classmethod' if 'classmethod' in decos else 'staticmethod' if 'staticmethod' in decos else
+                     'property' if ('property' in decos or 'cached_property' in decos) else
+                     'method' if self.cls is not None else 'function')
+        allp = [x.arg for x in pos]
+        if self.kind == 'classmethod' and allp:
+            allp = allp[1:]                                   # cls is a class object, not data
+        self.pos_params = allp
+        self.kwonly = [x.arg for x in a.kwonlyargs]
+        self.vararg = a.vararg.arg if a.vararg else None
+        self.kwarg = a.kwarg.arg if a.kwarg else None
+        ann = {x.arg: x.annotation for x in pos + a.kwonlyargs}
+
+        def scalar(name):
+            if name == 'self':
+                return False
+            an = ast.unparse(ann[name]) if ann.get(name) is not None else ''
+            if an and any(t in an for t in ('int', 'float', 'bool', 'str')) and 'ndarray' not in an and 'array' not in an:
+                return True
+            d = defaults.get(name)
+            if isinstance(d, ast.Constant) and d.value is not None:
+                return True
+            if isinstance(d, (ast.Tuple, ast.UnaryOp)):
+                return True
+            return name in SCALAR_PARAM_NAMES
+        names = allp + self.kwonly + ([self.vararg] if self.vararg else []) + ([self.kwarg] if self.kwarg else [])
+        self.params = [n for n in names if not scalar(n)]
+        self.stmts = []
+        self.ver = collections.Counter()
+        self.versions = collections.defaultdict(list)         # name -> every variable created for it
+        self.cur = {}
+        for p in self.params:
+            self.cur[p] = p
+            self.versions[p].append(p)
+        self.rets = []
+        self.var_types = collections.defaultdict(set)
+        for x in pos + a.kwonlyargs:
+            if x.annotation is not None:
+                t = ast.unparse(x.annotation).split('.')[-1]
+                if world.known_class(t):
+                    self.var_types[x.arg].add(t)
+        self.fn_alias = {}
+        self.local_fns = {}
+        self.local_imports = {}
+        self.stars = {}                                       # name -> star variable (all versions)
+        self.nested_params = []
+        self.notes = set()
+        self.depth_src = collections.defaultdict(list)        # var -> [int | var]: nesting depth of FRESH python containers
+
+    def new(self, name, depth=(0,)):
+        """new SSA version of `name`; `depth`: sources of its fresh-container depth (ints and variables)"""
+        self.ver[name] += 1
+        v = f'{name}#{self.ver[name]}'
+        self.cur[name] = v
+        self.versions[name].append(v)
+        self.depth_src[v] += list(depth)
+        return v
+
+    def emit(self, *st):
+        self.stmts.append(st)
+
+
+def names_assigned(nodes):
+    out = set()
+    for root in nodes:
+        for n in ast.walk(root):
+            if isinstance(n, ast.Name) and isinstance(n.ctx, (ast.Store, ast.Del)):
+                out.add(n.id)
+            elif isinstance(n, (ast.FunctionDef, ast.ClassDef)):
+                out.add(n.name)
+            elif isinstance(n, (ast.Import, ast.ImportFrom)):
+                for a in n.names:
+                    out.add((a.asname or a.name).split('.')[0])
+    return out
+
+
+class Walker:
+    def __init__(self, f, summaries):
+        self.f, self.summ, self.w = f, summaries, f.world
+        self.own = f.cls.name if f.cls is not None else None
+
+    # ------------------------------------------------------------------ static classes of expressions
+    def typeof(self, e):
+        f, w = self.f, self.w
+        if isinstance(e, ast.Name):
+            if e.id in ('self', 'cls') and self.own:
+                return {self.own}
+            return set(f.var_types.get(e.id, ()))
+        if isinstance(e, ast.Attribute):
+            out = set()
+            for t in self.typeof(e.value):
+                c = w.field_class(t, e.attr)
+                if c:
+                    out.add(c)
+                for q in w.method_quals(t, e.attr, True):
+                    if w.is_property(t, e.attr):
+                        out |= self.ret_class(q)
+            return out
+        if isinstance(e, ast.Call):
+            kind = self.callee(e.func)
+            if kind[0] == 'class':
+                return {kind[1]}
+            if kind[0] == 'fn':
+                out = set()
+                for q in kind[1]:
+                    out |= self.ret_class(q)
+                return out
+            if kind[0] == 'method':
+                out = set()
+                for t in self.typeof(kind[1]):
+                    for q in w.method_quals(t, kind[2], True):
+                        out |= self.ret_class(q)
+                return out
+        if isinstance(e, ast.IfExp):
+            return self.typeof(e.body) | self.typeof(e.orelse)
+        return set()
+
+    def ret_class(self, qual):
+        w = self.w
+        cache = w.__dict__.setdefault('_ret_class', {})
+        if qual in cache:
+            return cache[qual]
+        cache[qual] = set()
+        mod, ci, node = w.fn_nodes[qual]
+        out = set()
+        if node.returns is not None:
+            t = ast.unparse(node.returns).split('.')[-1].strip("'\"")
+            if w.known_class(t):
+                out.add(t)
+        for n in ast.walk(node):
+            if isinstance(n, ast.Return) and isinstance(n.value, ast.Call) and isinstance(n.value.func, ast.Name):
+                nm = n.value.func.id
+                if nm == 'cls' and ci is not None:
+                    out.add(ci.name)
+                elif w.known_class(nm):
+                    out.add(nm)
+        cache[qual] = out
+        return out
+
+    # ------------------------------------------------------------------ callee classification
+    def resolve(self, name):
+        f = self.f
+        if name in f.local_imports:
+            imp = f.local_imports[name]
+            return ('mod', imp[1]) if imp[0] == 'mod' else ('ext', imp[1] + '.' + imp[2])
+        return self.w.resolve_name(f.mod, name)
+
+    def ext_root(self, e):
+        """dotted name if `e` is an expression rooted at an imported external object / module, else None"""
+        f = self.f
+        if isinstance(e, ast.Name):
+            if e.id in f.cur or e.id in ('self', 'cls'):
+                fa = f.fn_alias.get(e.id)
+                if fa and all(k[0] == 'ext' for k in fa):
+                    return fa[0][1]
+                return None
+            r = self.resolve(e.id)
+            if r is None:
+                return None
+            if r[0] == 'mod':
+                return r[1] if r[1] not in self.w.by_dotted else None
+            if r[0] == 'ext':
+                return r[1]
+            return None
+        if isinstance(e, ast.Attribute):
+            b = self.ext_root(e.value)
+            return None if b is None else b + '.' + e.attr
+        if isinstance(e, ast.Subscript):
+            b = self.ext_root(e.value)
+            return None if b is None or b.startswith('numpy') else b
+        return None
+
+    def callee(self, func):
+        f, w = self.f, self.w
+        if isinstance(func, ast.Name):
+            n = func.id
+            if n in f.local_fns:
+                return ('local', n)
+            if n == 'cls' and self.own:
+                return ('class', self.own)
+            if n in f.cur:
+                if n in f.fn_alias:
+                    return ('var', f.fn_alias[n])
+                return ('unknown', n)
+            r = self.resolve(n)
+            if r is None:
+                if n in BUILTIN_FRESH or n in BUILTIN_ALIAS:
+                    return ('builtin', n)
+                return ('unknown', n)
+            if r[0] in ('fn', 'class'):
+                return r
+            if r[0] == 'ext':
+                return self._ext(r[1])
+            return ('unknown', n)
+        if isinstance(func, ast.Attribute):
+            ext = self.ext_root(func)
+            if ext is not None:
+                return self._ext(ext)
+            # module of the repo:  module.func(...)
+            chain, n = [], func
+            while isinstance(n, ast.Attribute):
+                chain.append(n.attr)
+                n = n.value
+            chain.reverse()
+            if isinstance(n, ast.Name) and n.id not in f.cur and n.id not in ('self', 'cls'):
+                r = self.resolve(n.id)
+                if r is not None and r[0] == 'mod' and r[1] in w.by_dotted and len(chain) == 1:
+                    m2 = w.by_dotted[r[1]]
+                    rr = w.resolve_name(m2, chain[0])
+                    if rr is not None and rr[0] in ('fn', 'class'):
+                        return rr
+                if r is not None and r[0] == 'class' and len(chain) == 1:
+                    qs = w.method_quals(r[1], chain[0], True)
+                    if qs:
+                        return ('fn', qs)
+            if isinstance(n, ast.Name) and n.id == 'cls' and self.own and len(chain) == 1:
+                qs = w.method_quals(self.own, chain[0], True)
+                if qs:
+                    return ('fn', qs)
+            return ('method', func.value, func.attr)
+        if isinstance(func, ast.Subscript):
+            ext = self.ext_root(func)
+            if ext is not None:
+                return self._ext(ext)
+        return ('unknown', ast.unparse(func)[:30])
+
+    def _ext(self, dotted):
+        if dotted.startswith('numpy.') or dotted == 'numpy':
+            return ('np', dotted[len('numpy.'):])
+        return ('ext', dotted)
+
+    # ------------------------------------------------------------------ expressions -> variables the value may alias
+    def lookup(self, name):
+        f = self.f
+        return [f.cur[name]] if name in f.cur else []
+
+    def expr(self, e):
+        f = self.f
+        if e is None:
+            return []
+        if isinstance(e, ast.Name):
+            return self.lookup(e.id)
+        if isinstance(e, ast.Attribute):
+            if self.ext_root(e) is not None:
+                return []
+            base = self.expr(e.value)
+            if e.attr in ATTR_SCALAR:
+                return []
+            ts = self.typeof(e.value)
+            out = []
+            prop_quals = []
+            for t in ts:
+                if self.w.is_property(t, e.attr):
+                    prop_quals += self.w.method_quals(t, e.attr, True)
+            if not ts:
+                for cname, cis in self.w.classes.items():
+                    for ci in cis:
+                        if e.attr in ci.props:
+                            prop_quals.append(f'{ci.mod.short}.{cname}.{e.attr}')
+            for q in dict.fromkeys(prop_quals):
+                out += self.apply_summary(q, base, [], {}, e)
+            if prop_quals and ts and all(self.w.is_property(t, e.attr) for t in ts):
+                return out
+            return out + base
+        if isinstance(e, ast.Subscript):
+            base = self.expr(e.value)
+            self.expr(e.slice)
+            return base
+        if isinstance(e, ast.Slice):
+            self.expr(e.lower), self.expr(e.upper), self.expr(e.step)
+            return []
+        if isinstance(e, ast.BinOp):
+            l, r = self.expr(e.left), self.expr(e.right)
+            listy = any(isinstance(x, (ast.List, ast.Tuple, ast.ListComp)) or
+                        (isinstance(x, ast.Call) and isinstance(x.func, ast.Name) and x.func.id in ('list', 'tuple'))
+                        for x in (e.left, e.right))
+            return l + r if listy else []
+        if isinstance(e, ast.BoolOp):
+            out = []
+            for v in e.values:
+                out += self.expr(v)
+            return out
+        if isinstance(e, (ast.UnaryOp, ast.Compare)):
+            for c in ast.iter_child_nodes(e):
+                if isinstance(c, ast.expr):
+                    self.expr(c)
+            return []
+        if isinstance(e, ast.IfExp):
+            self.expr(e.test)
+            return self.expr(e.body) + self.expr(e.orelse)
+        if isinstance(e, (ast.Tuple, ast.List, ast.Set)):
+            out = []
+            for x in e.elts:
+                out += self.expr(x)
+            return out
+        if isinstance(e, ast.Starred):
+            return self.expr(e.value)
+        if isinstance(e, ast.Dict):
+            out = []
+            for x in list(e.values) + [k for k in e.keys if k is not None]:
+                out += self.expr(x)
+            return out
+        if isinstance(e, (ast.ListComp, ast.GeneratorExp, ast.SetComp, ast.DictComp)):
+            saved = dict(f.cur)
+            for g in e.generators:
+                self.assign_target(g.target, self.expr(g.iter), e.lineno, e)
+                for c in g.ifs:
+                    self.expr(c)
+            if isinstance(e, ast.DictComp):
+                out = self.expr(e.key) + self.expr(e.value)
+            else:
+                out = self.expr(e.elt)
+            # comprehension variables are local to the comprehension; the result must not refer to names restored below
+            res = f.new('_comp', self.depth_of(e))
+            if out:
+                f.emit('alias', res, list(dict.fromkeys(out)))
+            else:
+                f.emit('alloc', res)
+            f.cur = saved
+            return [res]
+        if isinstance(e, ast.NamedExpr):
+            srcs = self.expr(e.value)
+            self.assign_target(e.target, srcs, e.lineno, e)
+            return srcs
+        if isinstance(e, ast.Call):
+            return self.call(e)
+        if isinstance(e, ast.Lambda):
+            return self.nested(e.args, [ast.Return(value=e.body, lineno=e.lineno)], None)
+        if isinstance(e, (ast.Yield, ast.YieldFrom)):
+            f.rets += self.expr(e.value)
+            return []
+        if isinstance(e, ast.JoinedStr):
+            for v in e.values:
+                if isinstance(v, ast.FormattedValue):
+                    self.expr(v.value)
+            return []
+        if isinstance(e, ast.FormattedValue):
+            self.expr(e.value)
+            return []
+        if isinstance(e, ast.Constant):
+            return []
+        f.notes.add('unhandled-expression:' + type(e).__name__)
+        out = []
+        for c in ast.iter_child_nodes(e):
+            if isinstance(c, ast.expr):
+                out += self.expr(c)
+        return out
+
+    # ------------------------------------------------------------------ nested functions and lambdas
+    def nested(self, args, body, name):
+        """translate a nested function body in place: parameters may alias everything, free variables all versions"""
+        f = self.f
+        saved = dict(f.cur)
+        saved_rets = f.rets
+        f.rets = []
+        for n in list(f.cur):
+            if n not in f.stars:
+                f.stars[n] = f'{n}#*'
+            f.cur[n] = f.stars[n]
+        for a in args.posonlyargs + args.args + args.kwonlyargs + ([args.vararg] if args.vararg else []) + \
+                ([args.kwarg] if args.kwarg else []):
+            v = f.new(a.arg)
+            f.nested_params.append(v)
+        for d in list(args.defaults) + [d for d in args.kw_defaults if d is not None]:
+            self.expr(d)
+        self.block(body)
+        rets = f.rets
+        f.rets = saved_rets
+        f.cur = saved
+        if name is not None:
+            f.local_fns[name] = rets
+        return rets
+
+    # ------------------------------------------------------------------ calls
+    def apply_summary(self, qual, recv, args, kws, node, starred=(), bind_self=True):
+        """effects and result of calling repo function `qual` (receiver variables `recv` or None)"""
+        f = self.f
+        if qual not in self.w.fn_nodes:
+            return []
+        s = self.summ.get(qual)
+        info = self.w.sigs[qual]
+        pos = list(info['pos'])
+        bind = collections.defaultdict(list)
+        if info['kind'] in ('method', 'property') and pos and pos[0] == 'self':
+            if recv is not None and bind_self:
+                bind['self'] += recv
+                pos = pos[1:]
+            # else: called through the class, `self` is the first positional argument
+        for i, a in enumerate(args):
+            if i in starred:
+                for p in pos + ([info['vararg']] if info['vararg'] else []):
+                    bind[p] += a
+            elif i < len(pos):
+                bind[pos[i]] += a
+            elif info['vararg']:
+                bind[info['vararg']] += a
+        for k, a in kws.items():
+            if k is None:
+                for p in pos + info['kwonly'] + ([info['kwarg']] if info['kwarg'] else []):
+                    bind[p] += a
+            elif k in pos or k in info['kwonly']:
+                bind[k] += a
+            elif info['kwarg']:
+                bind[info['kwarg']] += a
+        if s is None:
+            return []
+        for p in s['mutates']:
+            for v in bind.get(p, []):
+                f.emit('write', v, node.lineno, f'via {qual}: ' + ast.unparse(node)[:50])
+        out = []
+        for p in s['returns']:
+            out += bind.get(p, [])
+        return out
+
+    def call(self, c):
+        f = self.f
+        args = [self.expr(a) for a in c.args]
+        starred = {i for i, a in enumerate(c.args) if isinstance(a, ast.Starred)}
+        kws = {}
+        for k in c.keywords:
+            kws.setdefault(k.arg, [])
+            kws[k.arg] = kws[k.arg] + self.expr(k.value)
+        flat = [v for a in args for v in a] + [v for k, a in kws.items() if k != 'out' for v in a]
+        flat = list(dict.fromkeys(flat))
+        outv = kws.get('out', [])
+        for v in outv:
+            f.emit('write', v, c.lineno, ast.unparse(c)[:60])
+        return list(dict.fromkeys(outv + self._call(c, args, starred, kws, flat)))
+
+    def conservative(self, c, flat, why):
+        f = self.f
+        f.notes.add(f'unresolved-callee:{why}')
+        for v in flat:
+            f.emit('write', v, c.lineno, f'unresolved callee {why}: ' + ast.unparse(c)[:40])
+        return flat
+
+    def _np(self, c, name, args, flat):
+        f = self.f
+        if name == 'einsum':
+            spec = c.args[0].value.replace(' ', '') if c.args and isinstance(c.args[0], ast.Constant) and \
+                isinstance(c.args[0].value, str) else None
+            if spec is not None and len(c.args) == 2:
+                if '->' in spec:
+                    i, o = spec.split('->')
+                    letters = [ch for ch in i.replace('...', '') if ch.isalpha()]
+                    view = all(ch in o for ch in letters)
+                else:
+                    letters = [ch for ch in spec.replace('...', '') if ch.isalpha()]
+                    view = len(set(letters)) == len(letters)
+                return flat if view else []
+            return [] if len(c.args) > 2 else flat
+        if name == 'array':
+            copy_true_or_default = not any(k.arg == 'copy' and not (isinstance(k.value, ast.Constant) and k.value.value is True)
+                                           for k in c.keywords)
+            return [] if copy_true_or_default else flat
+        self.w.np_used[name] += 1
+        if name in NP_INPLACE or name.endswith('.at'):
+            for v in (args[0] if args else flat):
+                f.emit('write', v, c.lineno, ast.unparse(c)[:60])
+            return []
+        if name in NP_VIEW:
+            return flat
+        if name in NP_FRESH:
+            return []
+        f.notes.add('numpy-function-not-in-table(assumed non-mutating, may return a view):' + name)
+        return flat
+
+    def construct(self, cls, c, args, starred, kws, flat):
+        """ClassName(...): the object holds (aliases) every argument; explicit __init__ / __post_init__ run"""
+        out = list(flat)
+        for meth in ('__init__', '__post_init__'):
+            for q in self.w.method_quals(cls, meth, False)[:1]:
+                if meth == '__init__':
+                    out += self.apply_summary(q, flat, args, kws, c, starred)
+                else:
+                    out += self.apply_summary(q, flat, [], {}, c)
+        return out
+
+    def _call(self, c, args, starred, kws, flat):
+        f, w = self.f, self.w
+        kind = self.callee(c.func)
+        k0 = kind[0]
+        if k0 == 'np':
+            return self._np(c, kind[1], args, flat)
+        if k0 == 'ext':
+            d = kind[1]
+            if d.startswith(('operator.i', 'operator.setitem', 'operator.delitem', 'operator.__i', 'operator.__set')):
+                return self.conservative(c, flat, d)
+            if d.startswith(EXT_FRESH_PREFIX):
+                return []
+            if d.startswith(EXT_ALIAS):
+                return flat
+            return self.conservative(c, flat, d)
+        if k0 == 'builtin':
+            return [] if kind[1] in BUILTIN_FRESH else flat
+        if k0 == 'local':
+            return list(dict.fromkeys(f.local_fns[kind[1]] + flat))
+        if k0 == 'var':
+            out = []
+            for sub in kind[1]:
+                if sub[0] == 'ext':
+                    if not sub[1].startswith(EXT_FRESH_PREFIX):
+                        out += self.conservative(c, flat, sub[1])
+                elif sub[0] == 'fn':
+                    for q in sub[1]:
+                        out += self.apply_summary(q, None, args, kws, c, starred)
+                elif sub[0] == 'class':
+                    out += self.construct(sub[1], c, args, starred, kws, flat)
+            return out
+        if k0 == 'fn':
+            out = []
+            for q in kind[1]:
+                out += self.apply_summary(q, None, args, kws, c, starred)
+            return out
+        if k0 == 'class':
+            return self.construct(kind[1], c, args, starred, kws, flat)
+        if k0 == 'method':
+            recv_e, m = kind[1], kind[2]
+            recv = self.expr(recv_e)
+            ts = self.typeof(recv_e)
+            if m == '__class__':                 # obj.__class__(...): constructor of the receiver's class
+                out = list(dict.fromkeys(recv + flat))
+                for t in ts:
+                    out += self.construct(t, c, args, starred, kws, flat)
+                return out
+            quals = []
+            for t in ts:
+                if w.is_property(t, m):
+                    # value of a property is called: a third-party callable (SciPy interpolator) -- trusted pure
+                    for q in w.method_quals(t, m, True):
+                        self.apply_summary(q, recv, [], {}, c)
+                    f.notes.add(f'call-of-property-value(assumed pure third-party callable):{t}.{m}')
+                    return []
+                quals += w.method_quals(t, m, True)
+                quals += [('cm', q) for q in w.attr_callees.get((t, m), [])]
+            if not quals:
+                if m in ND_INPLACE_METHODS or (m.startswith('__i') and m.endswith('__') and m not in ('__init__', '__iter__',
+                                               '__int__', '__index__', '__invert__')) or m in ('__setitem__', '__delitem__'):
+                    for v in recv:
+                        f.emit('write', v, c.lineno, ast.unparse(c)[:60])
+                    return []
+                if m == 'shuffle':                  # random_state.shuffle(x) permutes x in place
+                    for v in flat:
+                        f.emit('write', v, c.lineno, ast.unparse(c)[:60])
+                    return []
+                if m in CONTAINER_STORE_METHODS:
+                    for v in recv:
+                        if flat:
+                            f.emit('alias', v, flat)
+                    return []
+                if m in ND_VIEW_METHODS:
+                    return list(dict.fromkeys(recv + flat))
+                if m in ND_FRESH_METHODS:
+                    w.nd_used[m] += 1
+                    return []
+                for cname, cis in w.classes.items():
+                    for ci in cis:
+                        if m in ci.methods:
+                            quals.append(f'{ci.mod.short}.{cname}.{m}')
+                        if (cname, m) in w.attr_callees:
+                            quals += [('cm', q) for q in w.attr_callees[(cname, m)]]
+                if not quals:
+                    f.notes.add(f'method-of-unknown-object(assumed pure third-party):{m}')
+                    return []
+            out = []
+            for q in dict.fromkeys(quals):
+                if isinstance(q, tuple):
+                    out += self.apply_summary(q[1], None, args, kws, c, starred)
+                elif w.sigs[q]['kind'] in ('classmethod', 'staticmethod'):
+                    out += self.apply_summary(q, None, args, kws, c, starred)
+                else:
+                    out += self.apply_summary(q, recv, args, kws, c, starred)
+            return out
+        return self.conservative(c, flat, str(kind[1]))
+
+    # ------------------------------------------------------------------ statements
+    def depth_of(self, e):
+        """sources of the fresh-python-container depth of the value of `e`: a list display / comprehension / list() /
+        dict() creates a NEW container, so a subscript *store* into it does not write to any array buffer"""
+        def num(x):
+            if isinstance(x, (ast.List, ast.Tuple, ast.Set)):
+                return 1 + (min([num(y) for y in x.elts]) if x.elts else 0)
+            if isinstance(x, (ast.ListComp, ast.SetComp)):
+                return 1 + num(x.elt)
+            if isinstance(x, (ast.Dict, ast.DictComp)):
+                return 1
+            if isinstance(x, ast.Call) and isinstance(x.func, ast.Name) and x.func.id in ('list', 'dict', 'set') and \
+                    x.func.id not in self.f.cur:
+                return 1
+            if isinstance(x, ast.BinOp) and isinstance(x.op, (ast.Add, ast.Mult)) and \
+                    any(isinstance(y, (ast.List, ast.ListComp)) for y in (x.left, x.right)):
+                return 1
+            return 0
+        if isinstance(e, ast.Name):
+            return self.lookup(e.id) or [0]
+        if isinstance(e, ast.IfExp):
+            return self.depth_of(e.body) + self.depth_of(e.orelse)
+        return [num(e)]
+
+    def assign_target(self, t, srcs, lineno, node, depth=(0,)):
+        f = self.f
+        if isinstance(t, ast.Name):
+            v = f.new(t.id, depth)
+            if srcs:
+                f.emit('alias', v, list(dict.fromkeys(srcs)))
+            else:
+                f.emit('alloc', v)
+        elif isinstance(t, (ast.Tuple, ast.List)):
+            for x in t.elts:
+                self.assign_target(x, srcs, lineno, node)
+        elif isinstance(t, ast.Starred):
+            self.assign_target(t.value, srcs, lineno, node)
+        elif isinstance(t, ast.Subscript):
+            base = self.expr(t.value)
+            self.expr(t.slice)
+            k, root = 1, t.value
+            while isinstance(root, ast.Subscript):
+                k, root = k + 1, root.value
+            for v in base:
+                if isinstance(root, ast.Name):
+                    f.emit('cwrite', v, lineno, ast.unparse(node)[:60], k)    # decided in finish(): container or array
+                else:
+                    f.emit('write', v, lineno, ast.unparse(node)[:60])
+                if srcs:
+                    f.emit('alias', v, list(dict.fromkeys(srcs)))     # containers: the element is stored by reference
+        elif isinstance(t, ast.Attribute):
+            base = self.expr(t.value)
+            for v in base:
+                if t.attr in ('shape', 'dtype', 'strides', 'real', 'imag', 'flat', 'data', 'T'):
+                    f.emit('write', v, lineno, ast.unparse(node)[:60])   # x.shape = .. / x.real = .. change the array itself
+                if srcs:                                             # otherwise: the object now holds the value
+                    f.emit('alias', v, list(dict.fromkeys(srcs)))
+
+    def record_callable(self, targets, value):
+        """track names / attributes bound to functions:  solver = eig if .. else eigh ;  self.g = getattr(Cls, name)"""
+        f, w = self.f, self.w
+        kinds = []
+        vals = [value.body, value.orelse] if isinstance(value, ast.IfExp) else [value]
+        for v in vals:
+            if isinstance(v, ast.Call) and isinstance(v.func, ast.Name) and v.func.id == 'getattr' and v.args and \
+                    isinstance(v.args[0], ast.Name):
+                r = ('class', self.own) if v.args[0].id == 'cls' and self.own else self.resolve(v.args[0].id)
+                if r is not None and r[0] == 'class':
+                    qs = [q for ci in w.classes[r[1]] for q in (f'{ci.mod.short}.{r[1]}.{m}' for m in ci.methods)]
+                    kinds.append(('fn', qs))
+                    continue
+            ext = self.ext_root(v)
+            if ext is not None:
+                kinds.append(('ext', ext))
+                continue
+            if isinstance(v, ast.Name) and v.id not in f.cur:
+                r = self.resolve(v.id)
+                if r is not None and r[0] in ('fn', 'class'):
+                    kinds.append(r)
+                    continue
+            return
+        for t in targets:
+            if isinstance(t, ast.Name):
+                f.fn_alias[t.id] = [k for k in f.fn_alias.get(t.id, []) if k not in kinds] + kinds
+            elif isinstance(t, ast.Attribute) and isinstance(t.value, ast.Name) and t.value.id == 'self' and self.own:
+                for k in kinds:
+                    if k[0] == 'fn':
+                        w.attr_callees[(self.own, t.attr)] |= set(k[1])
+
+    def block(self, body):
+        for st in body:
+            self.stmt(st)
+
+    def loop(self, target, iter_e, test, body, orelse, lineno, node):
+        f = self.f
+        srcs = self.expr(iter_e) if iter_e is not None else []
+        assigned = names_assigned(body + ([target] if target is not None else []))
+        heads = {}
+        for n in sorted(assigned):
+            before = f.cur.get(n)
+            h = f.new(n, [before] if before is not None else [])
+            heads[n] = (h, len(f.versions[n]))
+            if before is not None:
+                f.emit('alias', h, [before])
+            else:
+                f.emit('alloc', h)
+        if target is not None:
+            self.assign_target(target, srcs, lineno, node)
+        if test is not None:
+            self.expr(test)
+        self.block(body)
+        for n, (h, k) in heads.items():
+            newer = f.versions[n][k:]
+            if newer:
+                f.emit('alias', h, newer)
+                f.depth_src[h] += newer
+            f.cur[n] = h
+        self.block(orelse)
+
+    def join(self, outs):
+        f = self.f
+        names = set()
+        for o in outs:
+            names |= set(o)
+        for n in sorted(names):
+            vs = list(dict.fromkeys(o[n] for o in outs if n in o))
+            if len(vs) > 1:
+                v = f.new(n, vs)
+                f.emit('alias', v, vs)
+            elif vs:
+                f.cur[n] = vs[0]
+
+    def stmt(self, st):
+        f = self.f
+        if isinstance(st, ast.Assign):
+            srcs = self.expr(st.value)
+            self.record_callable(st.targets, st.value)
+            ts = self.typeof(st.value)
+            dsrc = self.depth_of(st.value)
+            for t in st.targets:
+                self.assign_target(t, srcs, st.lineno, st, dsrc)
+                if isinstance(t, ast.Name) and ts:
+                    f.var_types[t.id] |= ts
+        elif isinstance(st, ast.AnnAssign):
+            if st.value is not None:
+                self.assign_target(st.target, self.expr(st.value), st.lineno, st, self.depth_of(st.value))
+        elif isinstance(st, ast.AugAssign):
+            self.expr(st.value)
+            if isinstance(st.target, ast.Name):
+                tgt = self.lookup(st.target.id)
+            else:
+                tgt = self.expr(st.target)
+                if isinstance(st.target, ast.Subscript):
+                    tgt = self.expr(st.target.value)
+            for v in tgt:
+                f.emit('write', v, st.lineno, ast.unparse(st)[:60])
+        elif isinstance(st, ast.Return):
+            f.rets += self.expr(st.value)
+        elif isinstance(st, ast.Expr):
+            self.expr(st.value)
+        elif isinstance(st, ast.If):
+            self.expr(st.test)
+            before = dict(f.cur)
+            self.block(st.body)
+            a = dict(f.cur)
+            f.cur = dict(before)
+            self.block(st.orelse)
+            b = dict(f.cur)
+            self.join([a, b])
+        elif isinstance(st, ast.While):
+            self.loop(None, None, st.test, st.body, st.orelse, st.lineno, st)
+        elif isinstance(st, ast.For):
+            self.loop(st.target, st.iter, None, st.body, st.orelse, st.lineno, st)
+        elif isinstance(st, ast.Try):
+            before = dict(f.cur)
+            marks = {n: len(v) for n, v in f.versions.items()}
+            self.block(st.body)
+            self.block(st.orelse)
+            outs = [dict(f.cur)]
+            created = {n: v[marks.get(n, 0):] for n, v in f.versions.items() if len(v) > marks.get(n, 0)}
+            for h in st.handlers:
+                f.cur = dict(before)
+                for n, vs in created.items():
+                    hv = f.new(n, ([before[n]] if n in before else []) + vs)
+                    f.emit('alias', hv, ([before[n]] if n in before else []) + vs)
+                if h.type is not None:
+                    self.expr(h.type)
+                if h.name:
+                    f.emit('alloc', f.new(h.name))
+                self.block(h.body)
+                outs.append(dict(f.cur))
+            self.join(outs)
+            self.block(st.finalbody)
+        elif isinstance(st, ast.With):
+            for it in st.items:
+                srcs = self.expr(it.context_expr)
+                if it.optional_vars is not None:
+                    self.assign_target(it.optional_vars, srcs, st.lineno, st)
+            self.block(st.body)
+        elif isinstance(st, ast.Assert):
+            self.expr(st.test)
+            self.expr(st.msg)
+        elif isinstance(st, ast.Raise):
+            self.expr(st.exc)
+            self.expr(st.cause)
+        elif isinstance(st, ast.FunctionDef):
+            self.nested(st.args, st.body, st.name)
+            f.emit('alloc', f.new(st.name))
+        elif isinstance(st, (ast.Import, ast.ImportFrom)):
+            for a in st.names:
+                if isinstance(st, ast.Import):
+                    f.local_imports[a.asname or a.name.split('.')[0]] = ('mod', a.name if a.asname else a.name.split('.')[0])
+                else:
+                    f.local_imports[a.asname or a.name] = ('obj', st.module or '', a.name)
+        elif isinstance(st, ast.Delete):
+            for t in st.targets:
+                if isinstance(t, ast.Subscript):
+                    for v in self.expr(t.value):
+                        f.emit('write', v, st.lineno, ast.unparse(st)[:60])
+        elif isinstance(st, (ast.Pass, ast.Break, ast.Continue, ast.Global, ast.Nonlocal, ast.ClassDef)):
+            pass
+        else:
+            f.notes.add('unhandled-statement:' + type(st).__name__)
+
+    def finish(self):
+        """deferred statements: star variables (all versions of a name), parameters of nested functions (anything);
+        subscript stores into containers that are provably fresh python lists/dicts are not array writes"""
+        f = self.f
+        INF = 99
+        depth = {v: INF for v in f.depth_src}
+        changed = True
+        while changed:
+            changed = False
+            for v, srcs in f.depth_src.items():
+                d = min([x if isinstance(x, int) else depth.get(x, 0) for x in srcs] or [0])
+                if d < depth[v]:
+                    depth[v] = d
+                    changed = True
+        out = []
+        for st in f.stmts:
+            if st[0] == 'cwrite':
+                if depth.get(st[1], 0) >= st[4] and depth.get(st[1], 0) != INF:
+                    continue
+                st = ('write',) + st[1:4]
+            out.append(st)
+        f.stmts = out
+        for n, sv in f.stars.items():
+            vs = [v for v in f.versions[n] if v != sv]
+            if vs:
+                f.emit('alias', sv, vs)
+        if f.nested_params:
+            everything = [v for vs in f.versions.values() for v in vs] + list(f.stars.values())
+            everything = list(dict.fromkeys(everything))
+            for p in f.nested_params:
+                f.emit('alias', p, [v for v in everything if v != p])
+
+
+# ----------------------------------------------------------------------------- whole-repo analysis
+def may_sets(fn):
+    """least may-alias certificate: parameters own themselves, closed under the alias statements"""
+    may = collections.defaultdict(set)
+    for p in fn.params:
+        may[p].add(p)
+    changed = True
+    while changed:
+        changed = False
+        for s in fn.stmts:
+            if s[0] == 'alias':
+                x = s[1]
+                for y in s[2]:
+                    if not may[y] <= may[x]:
+                        may[x] |= may[y]
+                        changed = True
+    return may
+
+
+def analyse_repo(repo, files=None, sources=None):
+    """-> dict(world, functions: qual -> record) ; record: params, stmts, rets, may, mutates, returns, sites, notes"""
+    world = World(repo, (ANCHORED + OTHERS) if files is None else files, sources)
+    world.attr_callees = collections.defaultdict(set)
+    world.np_used = collections.Counter()
+    world.nd_used = collections.Counter()
+    world.sigs = {}
+    for q in world.fn_nodes:
+        f = FnCtx(world, q)
+        world.sigs[q] = {'pos': f.pos_params, 'kwonly': f.kwonly, 'vararg': f.vararg, 'kwarg': f.kwarg, 'kind': f.kind}
+    summaries = {}
+    records = {}
+    for rnd in range(12):
+        new = {}
+        n_attr = sum(len(v) for v in world.attr_callees.values())
+        for q in world.fn_nodes:
+            f = FnCtx(world, q)
+            wk = Walker(f, summaries)
+            wk.block(f.node.body)
+            wk.finish()
+            may = may_sets(f)
+            sites = collections.defaultdict(list)
+            for s in f.stmts:
+                if s[0] == 'write':
+                    for p in may[s[1]]:
+                        sites[p].append((s[2], s[3]))
+            rets = set()
+            for v in f.rets:
+                rets |= may[v]
+            new[q] = {'mutates': sorted(sites), 'returns': sorted(rets)}
+            records[q] = {'qual': q, 'fn': f, 'may': may, 'sites': dict(sites), 'mutates': sorted(sites),
+                          'returns': sorted(rets), 'notes': sorted(f.notes)}
+        stable = all(summaries.get(q) == new[q] for q in new) and \
+            n_attr == sum(len(v) for v in world.attr_callees.values())
+        summaries = new
+        if stable:
+            break
+    else:
+        raise RuntimeError('summaries did not stabilise')
+    return {'world': world, 'functions': records, 'rounds': rnd + 1}
+
+
+def to_ir(rec):
+    """numbered IR of one function: params, statements (deduplicated), return variables, may table, summary"""
+    f = rec['fn']
+    ids = {}
+
+    def vid(v):
+        if v not in ids:
+            ids[v] = len(ids)
+        return ids[v]
+    for p in f.params:
+        vid(p)
+    stmts, seen = [], set()
+    for s in f.stmts:
+        if s[0] == 'alloc':
+            t = ('alloc', vid(s[1]))
+        elif s[0] == 'alias':
+            t = ('alias', vid(s[1]), tuple(vid(y) for y in s[2]))
+        else:
+            t = ('write', vid(s[1]))
+        if t not in seen:
+            seen.add(t)
+            stmts.append(t)
+    rets = sorted({vid(v) for v in f.rets})
+    may = sorted((vid(v), sorted(vid(p) for p in ps)) for v, ps in rec['may'].items() if ps and v in ids)
+    return {'name': rec['qual'], 'params': [vid(p) for p in f.params], 'param_names': list(f.params), 'stmts': stmts,
+            'rets': rets, 'may': may, 'mutates': [vid(p) for p in rec['mutates']], 'returns': [vid(p) for p in rec['returns']]}
+
+
+def _lean_list(xs):
+    return '[' + ', '.join(str(x) for x in xs) + ']'
+
+
+def _lean_stmt(s):
+    if s[0] == 'alloc':
+        return f'.alloc {s[1]}'
+    if s[0] == 'alias':
+        return f'.alias {s[1]} {_lean_list(s[2])}'
+    return f'.write {s[1]}'
+
+
+def emit_lean(result, path, repo):
+    recs = result['functions']
+    quals = sorted(recs)
+    lines = ['import PbBss.Model.Effects',
+             '/-! GENERATED by harness/translate/effects.py from the working tree of the repository -- do not edit.',
+             '    Effect IR, may-alias certificates and callee summaries of every function of the analysed modules. -/',
+             'namespace PbBss.Generated', 'open Eff', '']
+    nstmts = 0
+    for i, q in enumerate(quals):
+        ir = to_ir(recs[q])
+        nstmts += len(ir['stmts'])
+        lines.append(f'/-- `{q}`  parameters: {", ".join(f"{n}={v}" for n, v in zip(ir["param_names"], ir["params"]))} -/')
+        lines.append(f'def f{i} : Fn := ⟨"{q}", ⟨{_lean_list(ir["params"])}, [')
+        body = ', '.join(_lean_stmt(s) for s in ir['stmts'])
+        # keep lines short
+        chunk, cur = [], ''
+        for part in body.split(', .'):
+            part = part if part.startswith('.') or not part else '.' + part
+            if len(cur) + len(part) > 110:
+                chunk.append(cur)
+                cur = ''
+            cur += (', ' if cur else '') + part
+        if cur:
+            chunk.append(cur)
+        lines += ['    ' + c + (',' if j < len(chunk) - 1 else '') for j, c in enumerate(chunk)]
+        lines.append(f'  ]⟩, /- rets -/ {_lean_list(ir["rets"])},')
+        tab = ', '.join(f'({v}, {_lean_list(ps)})' for v, ps in ir['may'])
+        lines.append(f'  /- may -/ [{tab}],')
+        lines.append(f'  /- summary: mutates, returns -/ ⟨{_lean_list(ir["mutates"])}, {_lean_list(ir["returns"])}⟩⟩')
+        lines.append('')
+    exc = [i for i, q in enumerate(quals) if q in EXCEPTIONS]
+    ent = [i for i, q in enumerate(quals) if q not in EXCEPTIONS]
+    lines.append('/-- every analysed function -/')
+    lines.append('def functions : List Fn := [' + ', '.join(f'f{i}' for i in range(len(quals))) + ']')
+    lines.append('/-- all of them except the documented exception -/')
+    lines.append('def entryPoints : List Fn := [' + ', '.join(f'f{i}' for i in ent) + ']')
+    lines.append('/-- `set_snr(inplace=True)` rescales the noise argument in place (documented) -/')
+    lines.append('def exceptions : List Fn := [' + ', '.join(f'f{i}' for i in exc) + ']')
+    lines += ['', 'end PbBss.Generated', '']
+    text = '\n'.join(lines)
+    old = open(path).read() if os.path.exists(path) else None
+    if old != text:
+        os.makedirs(os.path.dirname(path), exist_ok=True)
+        with open(path, 'w') as fh:
+            fh.write(text)
+    return nstmts
+
+
+def flagged(result):
+    """python-side verdict: functions with a write that may reach a parameter (set_snr is the documented exception)"""
+    return {q: r['sites'] for q, r in result['functions'].items() if r['mutates']}
+
+
+def generate(repo, path):
+    res = analyse_repo(repo)
+    n = emit_lean(res, path, repo)
+    fl = flagged(res)
+    return {'functions': len(res['functions']), 'statements': n, 'flagged': sorted(fl), 'rounds': res['rounds'],
+            'result': res}
+
+
+if __name__ == '__main__':
+    import sys
+    repo = sys.argv[1] if len(sys.argv) > 1 else '/repo'
+    res = analyse_repo(repo)
+    for q, sites in sorted(flagged(res).items()):
+        print('MUTATES', q, sorted(sites))
+        for p, ss in sites.items():
+            for ln, src in ss[:3]:
+                print('      ', p, 'line', ln, '|', src)
+    notes = collections.Counter(n for r in res['functions'].values() for n in r['notes'])
+    for n, k in sorted(notes.items()):
+        print('note', k, n)
+    print('functions', len(res['functions']), 'statements', sum(len(to_ir(r)['stmts']) for r in res['functions'].values()),
+          'rounds', res['rounds'])
+    if len(sys.argv) > 2:
+        emit_lean(res, sys.argv[2], repo)
